@@ -401,9 +401,11 @@ let tim_gen use_spec line =
         (* "kind@path": which effective option this benchmark makes visible *)
         (match String.index_opt path '@' with
          | Some 2 when String.sub path 0 2 = "mn" ->
-           String.sub path 3 (String.length path - 3) ^ "=" ^ (match eff.o_min_time with Some x when x <> N0 -> "F" | _ -> "n")
+           (* a zero budget: never called ("Z"); otherwise called again only under a floor *)
+           String.sub path 3 (String.length path - 3) ^ "=" ^
+           (match eff.o_max_time, eff.o_min_time with Some N0, _ -> "Z" | _, Some x when x <> N0 -> "F" | _ -> "n")
          | Some 2 when String.sub path 0 2 = "mx" ->
-           String.sub path 3 (String.length path - 3) ^ "=" ^ (match eff.o_max_time with Some _ -> "C" | None -> "n")
+           String.sub path 3 (String.length path - 3) ^ "=" ^ (match eff.o_max_time with Some N0 -> "Z" | Some _ -> "C" | None -> "n")
          | _ -> path ^ "=" ^ (if effective_skip_ext eff then "S" else "N"))
       | _ -> failwith ("bad bench entry " ^ tok)) (nonempty (section secs "B")) in
   "T " ^ String.concat " " entries ^ " #Z " ^ (if binary then "bin" else "dec")
